@@ -18,6 +18,7 @@ class BuildError(Exception):
 
 
 def parse(config):
+    config = config.split("@")[0]       # "<build>@memcheck": the same binary, run under valgrind (see runner.py)
     parts = config.split("+")
     profile = parts[0]
     feats = parts[1:]
@@ -25,7 +26,7 @@ def parse(config):
 
 
 def bin_path(config):
-    return os.path.join(BIN, config.replace("+", "_"))
+    return os.path.join(BIN, config.split("@")[0].replace("+", "_"))
 
 
 def ensure(configs, quiet=True):
